@@ -215,11 +215,25 @@ def keys (ps : Ports) : List Name := ps.map (·.1)
 /-- the port object at a dotted path below a port dict -/
 def getAt : List Name → Ports → Option Obj
   | [], _ => none
-  | [n], ps => lookup n ps
   | n :: rest, ps =>
       match lookup n ps with
-      | some (.ns _ _ sub) => getAt rest sub
-      | _ => none
+      | none => none
+      | some o =>
+          if rest = [] then some o
+          else match o with
+            | .ns _ _ sub => getAt rest sub
+            | .leaf _ _ => none
+
+/-- the namespace that `create_port_namespace(path)` returns (an existing one, or a new empty one with default properties and
+a fresh identity) and the counter at that moment; `none` where it raises -/
+def targetOf : List Name → Ns → Nat → Option (Ns × Nat)
+  | [], self, c => some (self, c)
+  | n :: rest, self, c =>
+      if n = "" ∧ rest = [] then none
+      else match lookup n self.ports with
+        | some (.leaf _ _) => none
+        | some (.ns i p sub) => targetOf rest ⟨i, p, sub⟩ c
+        | none => targetOf rest ⟨c, defaultProps, []⟩ (c + 1)
 
 /-- the namespace at a dotted path, starting from (and including) a namespace -/
 def nsAt : List Name → Ns → Option Ns
